@@ -369,6 +369,7 @@ def _ft(name, cls, what, f=1, defs=None, **kw):
     return Run(name, 'faults.cpp', d, exc=True, own_new=True, faults=f, covers=6, native=('clang-O1-san', 'clang-O1'), bounds=_FT % (what, f), **kw)
 _FTAD = Run('faults_anydata', 'faults.cpp', {'CLASS': 4}, exc=True, own_new=True, faults=1, covers=6, optional_covers=(1, 3, 5), native=('clang-O1-san', 'clang-O1'),
             bounds='AnyData<32> built from and moved with a tracked value whose copy / move constructor throws, or whose heap block cannot be allocated (F=1): inline-sized and larger-than-inline value; value symbolic')
+PROPS['C17'].quick.append(Run('anydata_string', 'anydata_string.cpp', {}, covers=3, bounds='AnyData<64> (inline) and AnyData<1> (beyond the inline capacity) holding a std::string of 5, 15 (both inside the string object: self-referential) or 40 characters (heap block) of a symbolic character: copy in, original destroyed, holder moved and the old holder freed, optionally moved into a queued event and read by a listener; the engine flags any read of freed storage'))
 PROPS['C17'].quick.append(_FTAD)      # (C17's thorough list is its quick list)
 _FTTH = [Run('faults_cl_threads_p3', 'cl_threads_fault.cpp', {'DISP': 0}, exc=True, faults=1, preempt=3, covers=2, mt=True, native=(), bounds='C09 x C03: CallbackList, instrumented policy; thread 1 appends / prepends a callback whose copy constructor may throw (F=1: any one of its copies), thread 2 appends concurrently; every schedule with P<=3 preemptions at the mutex / atomic hooks; the next invocation calls exactly the successfully added callbacks once each, and so does the one after a further addition (engine verdict only: no native replay of fault + thread schedules)'),
          Run('faults_disp_threads_p2', 'cl_threads_fault.cpp', {'DISP': 1}, exc=True, faults=1, preempt=2, covers=2, mt=True, native=(), bounds='the same through EventDispatcher::appendListener / prependListener / dispatch, P<=2')]
